@@ -6,7 +6,7 @@
 #include "det_bodies.hpp"
 #include "driver_main.hpp"
 
-static std::vector<std::vector<int>> harnesses() { return {{0, 0}, {0, 1}, {2, 3}, {3, 4}, {5, 6}, {0, 7}, {0, 1, 3}}; }
+static std::vector<std::vector<int>> harnesses() { return {{0, 0}, {0, 1}, {2, 3}, {3, 4}, {5, 6}, {0, 7}, {8, 0}, {0, 1, 3}}; }
 int main(int argc, char **argv) {
   drv::Args args = drv::Args::parse(argc, argv); double t0 = vf::now_s();
   int child = -1, reps = args.thorough() ? 50 : 12;
